@@ -81,6 +81,8 @@ def writeHunk (file : List Line) : List PatchLine â†’ Nat â†’ Option (List Out Ã
   | [], cur => some ([], cur)
   | pl :: rest, cur =>
     if pl.op == SP then
+      -- the file may end before the hunk does if fuzz ignores the lines at the end of the hunk (D99)
+      if cur == file.length then writeHunk file rest cur else
       match file[cur]? with
       | none => none
       | some l => (writeHunk file rest (cur + 1)).map fun (o, c) => (Out.fromFile cur l :: o, c)
@@ -121,6 +123,8 @@ def defineLoop (file : List Line) (sym : Bytes) : List PatchLine â†’ Nat â†’ Def
   | [], cur, st, w => some (w, cur, st)
   | pl :: rest, cur, st, w =>
     if pl.op == SP then
+      -- the file may end before the hunk does if fuzz ignores the lines at the end of the hunk (D99)
+      if cur == file.length then defineLoop file sym rest cur st w else
       match file[cur]? with
       | none => none
       | some l =>
